@@ -13,7 +13,7 @@ const apiZeroArgsLight = `"", nil, 0, nil, nil, nil, nil, nil, nil, nil, time.Ti
 
 // Packages whose import makes building and linting a module much slower
 // (large dependency graphs); only a quarter of the packages use them.
-var heavyRe = regexp.MustCompile(`\b(http|tls|x509|template|xml|exec|net|url|elliptic|big|flag)\.|\br\.Header|w\.WriteHeader`)
+var heavyRe = regexp.MustCompile(`\b(http|tls|x509|template|exec|net|url|elliptic|big|flag)\.|\br\.Header|w\.WriteHeader`)
 
 var (
 	lightTemplates []int
@@ -372,6 +372,33 @@ var apiTemplates = []string{
 	"_ = new({N:int|[]int|struct{}|*int|func()|any|[0]int|chan int|map[string]int|sync.Mutex})",
 	"_ = complex({F:f|1}, {F:2|f}) {O:==|!=} complex({F:1}, 2)\n\t_ = real(complex128({N:1i|complex(f, f)})) + imag({N:2i|complex(1, f)})",
 	"close({N:ch|make(chan int)|(ch)|*new(chan int)})",
+	// method calls that can also be written as method expressions (hole M: receiver;type;method)
+	"_ = {M:regexp.MustCompile(\"a\");(*regexp.Regexp);FindAll}{B:b|nil}, {I:-1|0|n})",
+	"_ = {M:regexp.MustCompile(\"a\");(*regexp.Regexp);FindAllString}{S:s}, {I:0|-1})",
+	"{M:mu;(*sync.Mutex);Lock})\n\t{M:mu;(*sync.Mutex);Unlock})",
+	"{M:wg;(*sync.WaitGroup);Add}{I:1|-1|n})",
+	"_ = {M:t;time.Time;Sub}time.Now())",
+	"_ = {M:time.Now();time.Time;Sub}{N:t|time.Time{}})",
+	"_ = {M:json.NewDecoder(rd);(*json.Decoder);Decode}{N:v|&v|m|n|nil})",
+	"_ = {M:json.NewEncoder(w);(*json.Encoder);Encode}{N:ch|v|func() {}|struct{ a int }{}})",
+	"_ = {M:xml.NewEncoder(w);(*xml.Encoder);Encode}{N:ch|v|m|struct{ a int }{}})",
+	"_ = {M:xml.NewDecoder(rd);(*xml.Decoder);Decode}{N:v|&v|m|n})",
+	"{M:new(sync.Pool);(*sync.Pool);Put}{N:xs|b|p|s|n|&xs})",
+	"_ = {M:new(bytes.Buffer);(*bytes.Buffer);String})",
+	"_ = {M:time.NewTimer(d);(*time.Timer);Reset}{D:d|0})",
+	"_ = {M:rand.New(rand.NewSource(1));(*rand.Rand);Intn}{I:1|n})",
+	"{M:base64.StdEncoding;(*base64.Encoding);Encode}{B:b}, {B:b|b[1:]})",
+	"_ = hex.Encode({B:b}, {B:b|b[:1]|[]byte(s)})",
+	"_ = {M:strings.NewReplacer(\"a\", \"b\");(*strings.Replacer);Replace}{S:s})",
+	"_ = {M:ctx;context.Context;Err})",
+	"_ = {M:err;error;Error})",
+	// functions that require an even number of elements
+	"exoPairs({N:|1|1, 2|1, 2, 3|xs...|xs[:1]...|xs[1:3]...|arr3[:]...|arr3[:2]...|new([5]int)[:]...|[]int{1}...|append(xs, 1)...})",
+	"_ = strings.NewReplacer({N:ss...|ss[:1]...|ss[:3]...|[]string{\"a\"}...|sarr3[:]...|new([1]string)[:]...})",
+	// keyed literals of struct types reached through aliases and instantiated generic aliases
+	"_ = {N:tar.Header|exoTarAlias|exoTarGA[int]|exoTarGA[[]string]}{Name: {S:s|\"n\"}, {N:Mode: 1|Size: int64(n)|Uid: n}}",
+	"§sa1019-instantiated-literal-selector§_ = {N:exoTarGA[int]|exoTarGA[string]|exoTarGA[any]}{{N:Xattrs: nil|Name: s, Xattrs: map[string]string{}}}",
+	"_ = {N:tar.Header|exoTarAlias}{Xattrs: nil}\n\t_ = {N:tar.Header{}|exoTarAlias{}|exoTarGA[int]{}}.Xattrs",
 	"var fv {N:func(int) int = exoID[int]|func() = func() {}|func(string) string = strings.ToUpper|func() string = t.String|func(time.Time) string = time.Time.String|func(int, string) int = exoPair[int, string]|func(error) error = errors.Unwrap|func(...any) string = fmt.Sprint}\n\t_ = fv",
 	// explicitly typed variables whose initialiser needs the declared type to infer type arguments
 	"§redundant-type-partial-instantiation§var fv {N:func(int, string) int = exoPair[int]|func(int) int = exoID|func(int, string) int = exoPair|func(*int, []string) *int = exoPair[*int]}\n\t_ = fv",
@@ -393,6 +420,44 @@ func exoID[T any](x T) T { return x }
 
 func exoPair[A, B any](a A, b B) A { return a }
 
+func exoPairs(kv ...int) {
+	if len(kv)%2 != 0 {
+		panic("odd")
+	}
+}
+
+var (
+	arr3  [3]int
+	sarr3 [3]string
+)
+
+type exoTarAlias = tar.Header
+
+type exoTarGA[X any] = tar.Header
+
+// the variables of the API call shapes, for shapes placed in package-level initialisers
+var (
+	s   string
+	b   []byte
+	n   int
+	err error
+	m   map[string]int
+	xs  []int
+	ch  chan int
+	mu  *sync.Mutex
+	w   io.Writer
+	ctx context.Context
+	t   time.Time
+	f   float64
+	v   any
+	d   time.Duration
+	p   *int
+	u   uint8
+	ss  []string
+	wg  *sync.WaitGroup
+	rd  io.Reader
+)
+
 var sqlErrNoRows = errors.New("sql: no rows")
 
 var ss2 []int
@@ -409,7 +474,7 @@ func (h *intHeap) Pop() any          { return nil }`
 // balancing braces inside the body.
 func findHole(s string) (start, end int, kind byte, body string, ok bool) {
 	for i := 0; i+2 < len(s); i++ {
-		if s[i] != '{' || s[i+2] != ':' || !strings.ContainsRune("SIDBFLREON", rune(s[i+1])) {
+		if s[i] != '{' || s[i+2] != ':' || !strings.ContainsRune("SIDBFLREONM", rune(s[i+1])) {
 			continue
 		}
 		depth := 0
@@ -460,6 +525,17 @@ func (g *gen) needExoHelpers() {
 // exo routes an operand of the given kind through a drawn disguise. pre
 // collects statements that must precede the one under construction.
 func (g *gen) exo(kind byte, e string, pre *[]string) string {
+	if pre == nil {
+		// no room for auxiliary statements (package-level initialiser)
+		var none []string
+		for i := 0; i < 4; i++ {
+			if x := g.exo(kind, e, &none); len(none) == 0 {
+				return x
+			}
+			none = none[:0]
+		}
+		return e
+	}
 	var typ string
 	switch kind {
 	case 'S':
@@ -596,8 +672,25 @@ func (g *gen) fill(tmpl string, pre *[]string) string {
 		if !ok {
 			return tmpl
 		}
+		var c string
+		if kind == 'M' {
+			// a method call: receiver;type;method, rendered up to the first argument
+			parts := strings.SplitN(body, ";", 3)
+			if len(parts) == 3 && g.chance(35, "methexpr") && g.include("callcheck-method-expression-receiver") {
+				g.feat("exo_method_expression")
+				c = parts[1] + "." + parts[2] + "(" + parts[0] + ", "
+			} else if len(parts) == 3 {
+				recv := parts[0]
+				if g.chance(15, "parenrecv") {
+					recv = "(" + recv + ")"
+				}
+				c = recv + "." + parts[2] + "("
+			}
+			tmpl = tmpl[:start] + c + tmpl[end:]
+			continue
+		}
 		cands := splitTop(body)
-		c := cands[g.intn(0, len(cands)-1, "cand")]
+		c = cands[g.intn(0, len(cands)-1, "cand")]
 		if kind != 'O' && kind != 'N' {
 			c = g.exo(kind, c, pre)
 		}
@@ -665,12 +758,112 @@ func (g *gen) apiLines() string {
 	}
 	var pre []string
 	s := g.fill(tmpl, &pre)
+	s = g.exoCall(s)
 	g.feat("api_" + apiName(apiTemplates[i]))
 	if len(pre) > 0 {
 		return "{\n\t" + strings.Join(pre, "\n\t") + "\n\t" + s + "\n\t}"
 	}
 	return "{\n\t" + s + "\n\t}"
 }
+
+// lastCall splits a single-line statement of the form `_ = X(args)`, `_, _ = X(args)` or
+// `X(args)` into its prefix, the callee X and the parenthesised arguments of the
+// outermost call, or reports false.
+func lastCall(stmt string) (prefix, callee, args string, ok bool) {
+	if strings.Contains(stmt, "\n") {
+		return
+	}
+	expr := stmt
+	if m := assignPrefixRe.FindString(stmt); m != "" {
+		prefix, expr = m, stmt[len(m):]
+	}
+	if !strings.HasSuffix(expr, ")") || !callStartRe.MatchString(expr) {
+		return
+	}
+	// match parentheses, skipping literals
+	var stack []int
+	open := -1
+	for i := 0; i < len(expr); i++ {
+		switch c := expr[i]; c {
+		case '"', '`', '\'':
+			k := i + 1
+			for k < len(expr) && expr[k] != c {
+				if expr[k] == '\\' && c != '`' {
+					k++
+				}
+				k++
+			}
+			i = k
+		case '(', '[', '{':
+			stack = append(stack, i)
+		case ')', ']', '}':
+			if len(stack) == 0 {
+				return
+			}
+			if i == len(expr)-1 {
+				open = stack[len(stack)-1]
+			}
+			stack = stack[:len(stack)-1]
+		}
+	}
+	if open <= 0 || len(stack) != 0 || expr[open] != '(' {
+		return
+	}
+	callee = expr[:open]
+	last := callee[len(callee)-1]
+	if !(last == ')' || last == ']' || last == '_' || last >= '0' && last <= '9' || last >= 'a' && last <= 'z' || last >= 'A' && last <= 'Z') {
+		return
+	}
+	for _, kw := range []string{"func", "len", "cap", "make", "new", "append", "copy", "delete", "close", "panic", "print", "println", "min", "max", "clear", "complex", "real", "imag", "recover"} {
+		if callee == kw {
+			return
+		}
+	}
+	if strings.ContainsAny(callee, " <>=!+-*/%&|^") && !strings.HasPrefix(callee, "(") {
+		return // an operator at the top level: the call is only an operand
+	}
+	return prefix, callee, expr[open:], true
+}
+
+var (
+	assignPrefixRe = regexp.MustCompile(`^_(, _)* = `)
+	callStartRe    = regexp.MustCompile(`^\(?\*?[A-Za-z_]`)
+)
+
+// exoCall disguises the call of a statement that consists of one call: the
+// callee is parenthesised, or the call is deferred or started as a goroutine.
+func (g *gen) exoCall(stmt string) string {
+	prefix, callee, args, ok := lastCall(stmt)
+	if !ok {
+		return stmt
+	}
+	switch g.intn(0, 11, "exocall") {
+	case 0:
+		// recorded finding: SA1001 asserts that the callee of a matched call is a selector expression
+		if strings.HasSuffix(callee, ".Parse") && !g.include("sa1001-parenthesised-callee") {
+			return stmt
+		}
+		if strings.HasPrefix(callee, "slices.") || strings.HasPrefix(callee, "maps.") || strings.HasPrefix(callee, "exoID") || strings.HasPrefix(callee, "exoPair(") || callee == "exoPair" {
+			return stmt // generic functions cannot be parenthesised without instantiation
+		}
+		g.feat("exo_paren_callee")
+		return prefix + "(" + callee + ")" + args
+	case 1, 2:
+		// conversions cannot be deferred; the callee must be a function or method
+		if !qualifiedCalleeRe.MatchString(callee) || strings.HasPrefix(callee, "unsafe.") {
+			return stmt
+		}
+		// recorded finding: SA5012 asserts that the source of a call instruction is a call expression
+		if (strings.Contains(callee, "NewReplacer") || strings.Contains(callee, "exoPairs")) && !g.include("sa5012-call-source-defer-go") {
+			return stmt
+		}
+		g.feat("exo_defer_go_call")
+		return pick(g, "defergo", "defer ", "go ") + callee + args
+	}
+	return stmt
+}
+
+var qualifiedCalleeRe = regexp.MustCompile(`^([a-z][a-z0-9]*\.[A-Z]\w*|exo[A-Z]\w*|\(\*?[a-z]+\.[A-Z]\w*\)\.[A-Z]\w*|[a-z]+\.[A-Z]\w*\([^()]*\)\.[A-Z]\w*)$`)
 
 var apiNameRe = regexp.MustCompile(`([a-z0-9]+\.[A-Za-z0-9]+)`)
 
@@ -692,6 +885,10 @@ func (g *gen) apiStmt(d int) string {
 // apiFunc is family g: a function whose body is a sequence of API call shapes.
 func (g *gen) apiFunc() {
 	g.needExoHelpers()
+	if g.chance(12, "pkglevel") {
+		g.apiPackageLevel()
+		return
+	}
 	g.unit("api", g.inTest(), func() string {
 		g.dep(g.exoHelpers)
 		name := g.styled(g.flip("expfn"))
@@ -701,5 +898,32 @@ func (g *gen) apiFunc() {
 		}
 		params, _ := g.apiParams()
 		return g.doc(name) + "func " + name + "(" + params + ") {\n\t" + strings.Join(blocks, "\n\t") + "\n}"
+	})
+}
+
+// apiPackageLevel places call shapes in the initialisers of package-level
+// variables (the calls then belong to the synthetic init function).
+func (g *gen) apiPackageLevel() {
+	g.unit("api", g.inTest(), func() string {
+		g.dep(g.exoHelpers)
+		var lines []string
+		for tries := 0; tries < 40 && len(lines) < 3; tries++ {
+			tmpl := apiTemplates[lightTemplates[g.intn(0, len(lightTemplates)-1, "api")]]
+			if strings.HasPrefix(tmpl, "§") || strings.Contains(tmpl, "\n") || !assignPrefixRe.MatchString(tmpl) {
+				continue
+			}
+			// recorded finding: SA1003 takes the position of the enclosing function, which the
+			// synthetic init function does not have
+			if strings.Contains(tmpl, "binary.Write") && !g.include("sa1003-position-in-package-initialiser") {
+				continue
+			}
+			s := g.fill(tmpl, nil)
+			g.feat("api_package_level", "api_"+apiName(tmpl))
+			lines = append(lines, "var "+s)
+		}
+		if len(lines) == 0 {
+			lines = append(lines, "var _ = len(s)")
+		}
+		return strings.Join(lines, "\n\n")
 	})
 }
